@@ -159,9 +159,107 @@ func runC10(c *core.Ctx) {
 					}
 				}
 			}
+			// the hand-off respects the configured handler: Post only where it is known non-nil, the direct call only
+			// where it is known nil
+			handOK := true
+			core.Instrs(deliver.Parent(), func(ins ssa.Instruction) {
+				call, ok := ins.(*ssa.Call)
+				if !ok {
+					return
+				}
+				if call.Call.Value == ssa.Value(deliver) {
+					// direct call: if a Post alternative exists it must be on the handler == nil edge
+					for _, m := range core.EdgeCmps(ins.Block()) {
+						if core.FieldKey(m.X) == "PublisherDef.subOn" && core.IsNilConst(m.Y) && m.Op == token.NEQ {
+							handOK = false
+						}
+					}
+					return
+				}
+				for _, a := range call.Call.Args {
+					if a == ssa.Value(deliver) {
+						if g := core.Callee(&call.Call); g != nil && core.FuncName(g) == "fpgo.HandlerDef.Post" {
+							nonNil := false
+							for _, m := range core.EdgeCmps(ins.Block()) {
+								if m.Op == token.NEQ && core.IsNilConst(m.Y) && core.Path(m.X) == core.Path(call.Call.Args[0]) {
+									nonNil = true
+								}
+							}
+							if !nonNil {
+								handOK = false
+							}
+						}
+					}
+				}
+			})
+			if !handOK {
+				guarded = false
+			}
+			// the loop visits the subscriber list read from the publisher (its snapshot), not some other slice
+			srcOK := false
+			core.InstrsGroup(p, pub, func(fn *ssa.Function, ins ssa.Instruction) {
+				ia, ok := ins.(*ssa.IndexAddr)
+				if !ok || !core.InLoop(ia.Block()) {
+					return
+				}
+				base := core.Unwrap(ia.X)
+				if ok2, _ := c10isCurrentList(base, 0); ok2 {
+					srcOK = true
+					return
+				}
+				if ld, isLd := base.(*ssa.UnOp); isLd && ld.Op == token.MUL {
+					if cell, isA := ld.X.(*ssa.Alloc); isA {
+						// stores into the cell, also from closures that captured it
+						core.InstrsDeep(fn, func(_ *ssa.Function, i2 ssa.Instruction) {
+							st, isS := i2.(*ssa.Store)
+							if !isS {
+								return
+							}
+							same := st.Addr == ssa.Value(cell)
+							if fv, isFV := st.Addr.(*ssa.FreeVar); isFV && fv.Name() == cell.Comment {
+								same = true
+							}
+							if same {
+								if ok3, _ := c10isCurrentList(st.Val, 0); ok3 {
+									srcOK = true
+								}
+							}
+						})
+					}
+				}
+				if call, isC := core.Resolve(base).(*ssa.Call); isC {
+					// snapshot helper returning the list
+					if g := core.Callee(&call.Call); g != nil && p.InRepo(g) {
+						for _, rc := range core.ReturnCases(g) {
+							v := rc.Vals[0]
+							if ok3, _ := c10isCurrentList(v, 0); ok3 {
+								srcOK = true
+							}
+							if ld, isLd := v.(*ssa.UnOp); isLd {
+								if cell, isA := ld.X.(*ssa.Alloc); isA {
+									core.InstrsDeep(g, func(_ *ssa.Function, i2 ssa.Instruction) {
+										if st, isS := i2.(*ssa.Store); isS {
+											same := st.Addr == ssa.Value(cell)
+											if fv, isFV := st.Addr.(*ssa.FreeVar); isFV && fv.Name() == cell.Comment {
+												same = true
+											}
+											if same {
+												if ok4, _ := c10isCurrentList(st.Val, 0); ok4 {
+													srcOK = true
+												}
+											}
+										}
+									})
+								}
+							}
+						}
+					}
+				}
+			})
+			c.Check(srcOK, "R3", "PublisherDef.Publish/source", p.Pos(pub.Pos()), "the delivery loop visits the publisher's subscriber list (snapshot read under the lock)", "the delivery loop does not visit the publisher's subscriber list: subscribers are not reached")
 			c.Check(guarded && min == 1 && max == 1, "R3", "PublisherDef.Publish/once-per-subscriber", p.InstrPos(deliver),
 				"under OnNext != nil exactly one of {call, Post} of the delivery closure on every path",
-				fmt.Sprintf("delivery count per subscriber is between %d and %d (must be exactly 1) or not guarded by OnNext != nil (guarded=%v)", min, max, guarded))
+				fmt.Sprintf("delivery count per subscriber is between %d and %d (must be exactly 1) or not guarded by OnNext != nil / handed to the handler on the wrong edge of its nil test (ok=%v)", min, max, guarded))
 			// closure body
 			fn := deliver.Fn.(*ssa.Function)
 			c.Analysed(core.FuncName(fn))
@@ -258,6 +356,8 @@ func runC10(c *core.Ctx) {
 			}
 		})
 		c.Check(ok, "R5", "PublisherDef.Unsubscribe", p.Pos(u.Pos()), "repeats (recursion on the matched edge) until no occurrence is left", "Unsubscribe removes at most one occurrence: a subscription registered twice keeps receiving after Unsubscribe completed")
+		okS, dS := c10removal(p, u)
+		c.Check(okS, "R5", "PublisherDef.Unsubscribe/removal", p.Pos(u.Pos()), dS, dS)
 	}
 }
 
@@ -403,4 +503,119 @@ func c10map(p *core.Prog, m *ssa.Function) (bool, string) {
 	}
 	_ = types.Typ
 	return true, "one subscription on the origin whose OnNext publishes fn(in) once on the returned publisher"
+}
+
+// c10removal checks the removal step of Unsubscribe (in the method, its closures and extracted helpers):
+// the new list is list[:i:i] + list[i+1:] of the same list and index, built only where list[i] equals the
+// subscription to remove; when the "found one" flag is a local variable, it is set on that same edge and the
+// repetition is guarded by it.
+func c10removal(p *core.Prog, u *ssa.Function) (bool, string) {
+	var fns []*ssa.Function
+	for _, g := range core.Group(p, u) {
+		core.InstrsDeep(g, func(fn *ssa.Function, _ ssa.Instruction) {
+			for _, x := range fns {
+				if x == fn {
+					return
+				}
+			}
+			fns = append(fns, fn)
+		})
+	}
+	var app *ssa.Call
+	for _, fn := range fns {
+		core.Instrs(fn, func(ins ssa.Instruction) {
+			if call, ok := ins.(*ssa.Call); ok && core.IsBuiltin(&call.Call, "append") && len(call.Call.Args) == 2 {
+				if sl, isSl := call.Call.Args[0].(*ssa.Slice); isSl && sl.Max != nil && sl.High == sl.Max {
+					app = call
+				}
+			}
+		})
+	}
+	if app == nil {
+		return true, "no capacity-limited prefix append (the removal is written differently; R2 judges the stored value)"
+	}
+	pre := app.Call.Args[0].(*ssa.Slice)
+	idx := pre.High
+	tail, isSl := app.Call.Args[1].(*ssa.Slice)
+	if !isSl || tail.High != nil || core.Path(tail.X) != core.Path(pre.X) {
+		return false, "the removal does not append the rest of the same list after the prefix"
+	}
+	lowOK := false
+	if b, isB := tail.Low.(*ssa.BinOp); isB && b.Op == token.ADD && b.X == idx && core.IsIntConst(b.Y, 1) {
+		lowOK = true
+	}
+	if !lowOK {
+		return false, "the rest appended after list[:i] does not start at i+1: the matching element is kept (and the removal repeats forever) or a neighbour is dropped or duplicated"
+	}
+	// on the edge list[i] == subscription
+	matchEdge := func(b *ssa.BasicBlock) bool {
+		for _, m := range core.EdgeCmps(b) {
+			if m.Op != token.EQL {
+				continue
+			}
+			for _, side := range []ssa.Value{m.X, m.Y} {
+				if ld, isLd := core.Resolve(side).(*ssa.UnOp); isLd && ld.Op == token.MUL {
+					if ia, isIA := ld.X.(*ssa.IndexAddr); isIA && ia.Index == idx {
+						return true
+					}
+				}
+			}
+		}
+		return false
+	}
+	if !matchEdge(app.Block()) {
+		return false, "the list is rebuilt without the element at i on a path where list[i] is not known to equal the subscription being removed: another subscriber is dropped"
+	}
+	// found-flag discipline when the flag is a local variable of Unsubscribe
+	var guard *ssa.If
+	core.Instrs(u, func(ins ssa.Instruction) {
+		if call, isCall := ins.(*ssa.Call); isCall && core.Callee(&call.Call) == u {
+			for _, cnd := range core.EdgeFacts(call.Block()) {
+				guard = cnd.If
+			}
+		}
+	})
+	if guard != nil {
+		n := core.Normalize(core.Cond{V: guard.Cond, True: true})
+		if ld, isLd := n.V.(*ssa.UnOp); isLd && ld.Op == token.MUL {
+			if cell, isA := ld.X.(*ssa.Alloc); isA {
+				// the recursion must sit on the flag-true edge
+				onTrue := false
+				core.Instrs(u, func(ins ssa.Instruction) {
+					if call, isCall := ins.(*ssa.Call); isCall && core.Callee(&call.Call) == u {
+						for _, cnd := range core.EdgeFacts(call.Block()) {
+							nn := core.Normalize(cnd)
+							if nn.V == ssa.Value(ld) && nn.True {
+								onTrue = true
+							}
+						}
+					}
+				})
+				if !onTrue {
+					return false, "the repetition is not on the edge where an occurrence was found"
+				}
+				// a store of true to that cell on the match edge (possibly inside the closure that captured it)
+				setOnMatch := false
+				for _, fn := range fns {
+					core.Instrs(fn, func(ins ssa.Instruction) {
+						st, ok := ins.(*ssa.Store)
+						if !ok || !isTrueConst(st.Val) {
+							return
+						}
+						same := st.Addr == ssa.Value(cell)
+						if fv, isFV := st.Addr.(*ssa.FreeVar); isFV && fv.Name() == cell.Comment {
+							same = true
+						}
+						if same && matchEdge(st.Block()) {
+							setOnMatch = true
+						}
+					})
+				}
+				if !setOnMatch {
+					return false, "the found-one flag is not set where an occurrence was removed: Unsubscribe stops after the first occurrence (or never repeats)"
+				}
+			}
+		}
+	}
+	return true, "new list = list[:i:i] + list[i+1:] on the edge list[i] == subscription; repetition guarded by the flag set on that edge"
 }
